@@ -594,6 +594,11 @@ func (u *Unit) run() {
 		u.results = append(u.results, rv)
 		u.declareVar(st, rv, u.zeroOf(rv.Type()))
 	}
+	// call counters (`called(f)` in the contract): name the ghost heap now, so that it is the entry version
+	u.initCounted()
+	if len(u.counted) > 0 {
+		u.heapRead(st, u.ghostHeap("called"))
+	}
 	// entry snapshot (before requires are assumed, heaps are initial)
 	u.entry = st.clone()
 	if u.ct != nil {
